@@ -6,6 +6,8 @@ ALL = ["C%02d" % i for i in range(1, 21)]
 BASE_OFF = "cd /repo && env -u ASCMHL_VERIF /venv/bin/python -m pytest -ra -q -p no:cacheprovider --timeout=900 --continue-on-collection-errors"
 T = "in-process CliRunner on tmpfs as accelerator, every alarm re-run in one fresh subprocess per command; CPython, hashlib, xxhash, lxml/libxml2 trusted; bounds and alphabets as listed in the evidence file"
 CHECKS = {
+ "C20": ("E4", "model_checking", "stateless exploration of all interleavings of the real Updater thread and the real CLI callback under a controlled line-level scheduler (preemption-bounded, then unbounded) x enumerated server behaviours",
+         "The real threads are run one source line at a time under a baton; every schedule up to the preemption bound (thorough: all schedules) is executed for 17 server behaviours (the arrival of the answer and the expiry of the join timeout are scheduler-controlled environment events with a virtual clock) and 4-5 commands; exit code, stdout, virtual blocking time and deadlock freedom are judged per execution, and a separate free-running pass with real threads measures real stall time.", "4 C20"),
  "C13": ("E4", "model_checking", "exhaustive enumeration of mount locations x invocation forms and of all directory-listing permutations (os.listdir/os.scandir seam) on the real code, byte comparison with a baseline",
          "The same tree is sealed under five kinds of ancestor folders (incl. names matching ignore patterns) x four invocation forms, and under every combination of permutations of every directory listing; the produced ascmhl folders must be byte-identical to the baseline and the baseline's sealed tree must verify at every location.", "4 C13"),
  "C15": ("E3", "fault_enumeration", "exhaustive crash-point enumeration on the logged write history of the real create (every log prefix, torn last write), recovery by the real commands",
@@ -45,7 +47,7 @@ CHECKS = {
  "C04": ("E1", "model_checking", "explicit-state BFS of the real file-system state graph (real create per transition, relational oracle)",
          "Every sequence of up to 3-4 generations over every non-empty subset of the format alphabet, with alter/restore of the tracked file, in folder, -sf and nested mode, is executed on the real code and judged against the on-disk history by an independent reader. Exhaustive inside the stated bounds, nothing beyond them.", "4 C04"),
 }
-NA_REASON = "check not built yet in this revision (design in DESIGN.md section 4); will be claimed once its check exists"
+NA_REASON = "not claimed"
 
 def main():
     checks = []
